@@ -335,7 +335,7 @@ PROPS["C04"] = dict(
           "(plain tcp / udp address, or none for an unknown publisher), for subscribers with and without a libp2p host, explicit and "
           "announced; the end of an announcement's handling is detected from the tap counters; same obligations, then the same head with "
           "the real address. A fifth of the cases reach the publisher over libp2p streams (mount libp2p-stream: the subscriber has a libp2p host of its own; a reset fault resets the stream). Explicit syncs run under a 150 s bounded-progress watchdog: a sync that neither completes nor fails is a violation. distinct_nontrivial = distinct (fault script, mode, mount, address list, baseline kind) tuples."),
-    floors={"quick": {"mount_libp2p-stream": 80, "unusable_address_syncs_failed": 12, "faulty_syncs_failed": 500, "fault_pairs": 150, "mount_libp2phttp-discovery": 150, "mount_legacy-nopath": 150, "addrs_live-dead": 80, "addrs_dead-live": 80,
+    floors={"quick": {"announced_cases_with_a_concurrency_limit": 40, "mount_libp2p-stream": 80, "unusable_address_syncs_failed": 12, "faulty_syncs_failed": 500, "fault_pairs": 150, "mount_libp2phttp-discovery": 150, "mount_legacy-nopath": 150, "addrs_live-dead": 80, "addrs_dead-live": 80,
                       "fault_hit_reset": 30, "fault_hit_stall": 10, "fault_hit_ctx-cancel": 20, "fault_hit_hook-fail": 20}},
     watchdog_s={"quick": 1200, "thorough": 7200},
     level_text=("Fault enumeration (seeded sample over kind x request index x mode x mount x address list, singles and pairs): real syncs against a "
@@ -358,7 +358,7 @@ PROPS["C06"] = dict(
           "every step is certainly past it). Every record carries a unique tag and a version, so what Get/List show identifies the delivery "
           "it came from. After every refresh that returned nil the clauses of the statement are checked for every provider; expiry uses "
           "[before,after] wall-clock intervals and only asserts what is certain. Step kind refresh-cancelled-late ends the caller's context while the last source is answering (that source still delivers); refresh-overlap-cancelled requests a refresh while another one, cancelled afterwards, is inside a source. distinct_nontrivial = distinct (configuration, first steps) histories."),
-    floors={"quick": {"refreshes_cancelled_after_the_last_source_answered": 1500, "refreshes_overlapping_a_cancelled_one": 1500, "refreshes_ok": 1000, "cancelled_then_successful_refresh": 200, "refreshes_overlapping": 300, "negative_hits": 30, "expiries_observed": 100,
+    floors={"quick": {"lookup_misses_during_a_refresh": 600, "refreshes_cancelled_after_the_last_source_answered": 1500, "refreshes_overlapping_a_cancelled_one": 1500, "refreshes_ok": 1000, "cancelled_then_successful_refresh": 200, "refreshes_overlapping": 300, "negative_hits": 30, "expiries_observed": 100,
                       "miss_fetches_positive": 25, "publications_with_merge": 300, "publications_without_merge": 300, "strangers_start_being_reported": 200}},
     level_text=("Exploration: the real cache is driven through thousands of seeded histories and compared after each step with the clauses of the "
                 "property (presence, freshest record, provenance of the record, monotonicity, TTL, negative caching)."),
@@ -438,7 +438,7 @@ PROPS["C14"] = dict(
           "behind them; every handling goroutine that ran a sync must have sent exactly one notification, and explicit syncs that ran and "
           "returned success must equal the notifications sent from explicit-sync goroutines. "
           "One explicit sync in four is a resync or carries an explicit older stop CID (the head recorded as latest then does not change, the notification is due all the same). distinct_nontrivial = distinct run configurations."),
-    floors={"quick": {"explicit_resyncs": 100, "explicit_syncs_with_stop_cid": 80, "must_deliveries_checked": 600, "emitted_events": 500, "long_runs_with_stalled_listener": 5, "listener_stalled": 10, "listener_cancel-then-read": 10, "listener_cancel-after-n": 10, "announce_triggered_syncs_checked": 200, "held_notification_overlap_runs": 12, "explicit_syncs_completed": 300}},
+    floors={"quick": {"listener_read-some-then-stall": 15, "explicit_resyncs": 100, "explicit_syncs_with_stop_cid": 80, "must_deliveries_checked": 600, "emitted_events": 500, "long_runs_with_stalled_listener": 5, "listener_stalled": 10, "listener_cancel-then-read": 10, "listener_cancel-after-n": 10, "announce_triggered_syncs_checked": 200, "held_notification_overlap_runs": 12, "explicit_syncs_completed": 300}},
     watchdog_s={"quick": 900, "thorough": 7200},
     level_text=("Exploration over schedules: each run's listeners are compared with the emission log; delivery obligations are derived from logical "
                 "timestamps so that only what the statement promises is demanded."),
@@ -461,7 +461,7 @@ PROPS["C15"] = dict(
           "listener channels are closed; every entry point (SyncAdChain, SyncEntries, SyncOneEntry, SyncHAMTEntries, Announce, OnSyncFinished, "
           "cancel functions, Get/SetLatestSync, RemoveHandler, HttpPeerStore, Close) returns on the closed subscriber (hang rule); no goroutine "
           "with a dagsync/announce frame remains. A third of the explicit cases queue a second explicit sync of the same publisher behind the gated one; the goroutines net/http keeps per client connection are counted before the subscriber exists and after Close. distinct_nontrivial = distinct (sync kind, close point, closers, racing activity) tuples."),
-    floors={"quick": {"http_client_connections_checked": 150, "close_with_second_explicit_sync_queued": 15, "post_close_calls": 800, "close_point_reached_sync.enter": 5, "close_point_reached_front": 5, "close_point_reached_pending.taken": 2, "closers_4": 5, "close_with_sync_waiting_for_async_slot": 1}},
+    floors={"quick": {"announce_syncs_held_until_the_watcher_was_stopped": 25, "http_client_connections_checked": 150, "close_with_second_explicit_sync_queued": 15, "post_close_calls": 800, "close_point_reached_sync.enter": 5, "close_point_reached_front": 5, "close_point_reached_pending.taken": 2, "closers_4": 5, "close_with_sync_waiting_for_async_slot": 1}},
     watchdog_s={"quick": 900, "thorough": 7200},
     level_text=("Exploration over schedules: Close is started at every instrumented point of a running sync; what happens after its first return "
                 "is read from the event log and goroutine dumps; blocking is decided by the hang rule."),
